@@ -63,4 +63,5 @@ EXTRAS = [
     lambda rep, fb, tier: __import__("vf.rules.lints3", fromlist=["x"]).rule_list_carry_origin(rep, fb),
     lambda rep, fb, tier: __import__("vf.rules.pyrules3", fromlist=["x"]).rule_py_unused_local(rep),
     lambda rep, fb, tier: __import__("vf.rules.pyrules3", fromlist=["x"]).rule_py_duplicate_operand(rep),
+    lambda rep, fb, tier: __import__("vf.rules.pyrules4", fromlist=["x"]).rule_py_pack_reenters(rep),
 ]
